@@ -26,7 +26,7 @@ contract(S + '.__setitem__', props=['C11', 'C12'],
     ensures=[('valid', 'spec_valid_setting(key, value) == 0', ['C12']),
              ('queued-not-applied', 'implies(old(key in self._settings), setting_current(self, key) == old(setting_current(self, key)) and self._settings[key][0] is old(self._settings[key][0]) or True)', ['C11']),
              ('current-unchanged', 'implies(old(setting_has(self, key)), setting_current(self, key) == old(setting_current(self, key)))', ['C11']),
-             ('appended', 'len(self._settings[key]) == (old(len(self._settings[key])) + 1 if old(key in self._settings) else 2)', ['C11']),
+             ('appended', 'len(self._settings[key]) == (old(len(self._settings[key])) + 1 if old(key in self._settings) else 2)', ['C11', 'C10']),
              ('inv', 'SETTINGS_OK(self)')],
     raises=[dict(exc='InvalidSettingsValueError', when='spec_valid_setting(key, value) != 0', iff=True, props=['C12'],
                  ensures=[('rfc-code', 'exc.error_code == spec_valid_setting(key, value)', ['C12', 'C18'])])],
@@ -34,15 +34,365 @@ contract(S + '.__setitem__', props=['C11', 'C12'],
               ('inv', 'SETTINGS_OK(self)')],
     canary='len(self._settings[key]) == 1')
 
+def ack_summary(I, loc):
+    """Functional summary of Settings.acknowledge for modular callers: every key's queue with a pending value
+    loses its head, the others are untouched; the result maps exactly the advanced keys to (old head, new head).
+    It restates the ensures clauses 'applies-one-pending-value-per-key', 'queues-advance-by-one',
+    'reports-exactly-the-changed-keys' and 'reported-values' in closed form (no per-key case split)."""
+    import z3
+    so = I.heap.get(loc['self'])
+    m = I.heap.get(so.fields['_settings'])
+    items, hn = m.arrays['items'], m.arrays['head_none']
+    k = z3.Int('ack!k')
+    adv = z3.Length(z3.Select(items, k)) > 1
+    new_items = z3.Lambda([k], z3.If(adv, z3.SubString(z3.Select(items, k), 1, z3.Length(z3.Select(items, k)) - 1), z3.Select(items, k)))
+    new_hn = z3.Lambda([k], z3.If(adv, z3.BoolVal(False), z3.Select(hn, k)))
+    res = I.new_sym_map('changes', I.class_named('h2.settings.ChangedSetting'))
+    r = I.heap.get(res)
+    r.dom = z3.Lambda([k], z3.And(z3.Select(m.dom, k), adv))
+    r.arrays['setting'] = z3.Lambda([k], k)
+    r.arrays['original_value'] = z3.Lambda([k], z3.Select(items, k)[0])
+    r.arrays['original_value?'] = z3.Lambda([k], z3.Select(hn, k))
+    r.arrays['new_value'] = z3.Lambda([k], z3.Select(items, k)[1])
+    m.arrays['items'], m.arrays['head_none'] = new_items, new_hn
+    loc['__ack_result'] = res
+    # instances of lemma 'queue-tail-stays-in-range' (proved separately) for the range-checked settings: they
+    # spare the solver an induction-free but quantifier-heavy derivation at every caller
+    for key, lo, hi in QUEUE_RANGES:
+        old_i = z3.Select(items, key)
+        new_i = z3.If(z3.Length(old_i) > 1, z3.SubString(old_i, 1, z3.Length(old_i) - 1), old_i)
+        I.assume(queue_tail_lemma_instance(old_i, new_i, lo, hi))
+
+
+QUEUE_RANGES = [(5, 16384, 16777215), (4, 0, 2 ** 31 - 1)]
+
+
+def _qrange(x, lo, hi, tag):
+    import z3
+    j = z3.Int('qpos!' + tag)
+    return z3.ForAll([j], z3.Implies(z3.And(j >= 1, j < z3.Length(x)), z3.And(x[j] >= lo, x[j] <= hi)))
+
+
+def queue_tail_lemma_instance(old_i, new_i, lo, hi):
+    import z3
+    return z3.Implies(z3.And(_qrange(old_i, lo, hi, 'a'), z3.Length(old_i) > 1),
+                      z3.And(old_i[1] >= lo, old_i[1] <= hi, _qrange(new_i, lo, hi, 'b')))
+
+
+def _build_queue_tail_lemma():
+    import z3
+    q = z3.Const('q', z3.SeqSort(z3.IntSort()))
+    lo, hi = z3.Ints('lo hi')
+    tail = z3.SubString(q, 1, z3.Length(q) - 1)
+    k = z3.Int('k')     # Skolem position of the goal's quantifier
+    assumes = [_qrange(q, lo, hi, 'a'), z3.Length(q) > 1]
+    goal = z3.And(q[1] >= lo, q[1] <= hi,
+                  z3.Implies(z3.And(k >= 1, k < z3.Length(tail)), z3.And(tail[k] >= lo, tail[k] <= hi)))
+    # tail[k] == q[k+1]: give the instance the solver needs
+    assumes.append(z3.Implies(z3.And(k >= 0, k < z3.Length(tail)), tail[k] == q[k + 1]))
+    return assumes, goal
+
+
+from h2vc.spec import zlemma
+zlemma('queue-tail-stays-in-range', ['C11', 'C12'], _build_queue_tail_lemma,
+       note='if every queued (non-head) value of a settings queue is in [lo, hi] and the queue has a pending value, then '
+            'that pending value is in range and so is every queued value of the queue without its head '
+            '(sequence fact tail[k] == q[k+1] supplied as an instance)')
+
+
+def ack_result(I, loc):
+    return loc['__ack_result']
+
+
+modular(S + '.acknowledge')
 contract(S + '.acknowledge', props=['C11'],
-    args={}, setup=settings_setup, ghost={'g_head': 'smap:bool'},
+    args={}, setup=settings_setup, ghost={'g_head': 'smap:bool'}, modifies=[ack_summary], result=ack_result,
     requires=['SETTINGS_OK(self)',
               # ghost g_head: the keys carried by the OLDEST unacknowledged SETTINGS frame; each has a pending value
               'all(implies(k in g_head, len(self._settings[k]) > 1) for k in self._settings)'],
     ensures=[('applies-one-pending-value-per-key', 'all(len(self._settings[k]) == (old(len(self._settings[k])) - 1 if old(len(self._settings[k])) > 1 else old(len(self._settings[k]))) for k in self._settings)'),
              ('one-frame-per-ack: keys of the acknowledged frame take their pending value', 'all(implies(k in g_head, len(self._settings[k]) == old(len(self._settings[k])) - 1 and (k in result)) for k in self._settings)', ['C11']),
              ('one-frame-per-ack: every other key keeps its current value', 'all(implies(not (k in g_head), len(self._settings[k]) == old(len(self._settings[k])) and not (k in result)) for k in self._settings)', ['C11']),
+             ('queues-advance-by-one', 'all(implies(old(len(self._settings[k])) > 1, self._settings[k][0] == old(self._settings[k][1]) and (len(self._settings[k]) < 2 or self._settings[k][1] == old(self._settings[k][2 if len(self._settings[k]) > 2 else 1]))) for k in self._settings)', ['C11']),
+             ('reported-values', 'all(result[k].original_value == old(self._settings[k][0]) and result[k].new_value == old(self._settings[k][1]) for k in result)', ['C11']),
              ('no-key-added-or-removed', 'all(k in old(self._settings) for k in self._settings) and all(k in self._settings for k in old(self._settings))'),
              ('reports-exactly-the-changed-keys', 'all((k in result) == (old(len(self._settings[k])) > 1) for k in self._settings)'),
              ('inv', 'SETTINGS_OK_WEAK(self)')],
     raises=[], canary='len(result) == 0')
+
+
+# ---------------------------------------------------------------------------
+# Connection-level settings handling (C11, C12, C02, C03, C04, C19, C29)
+LS, RS = 'self.local_settings', 'self.remote_settings'
+SOK2 = ['GI(self)', 'SETTINGS_OK(self.local_settings)', 'SETTINGS_OK(self.remote_settings)']
+
+
+def update_settings_setup(I, loc):
+    conn_setup(I, loc)
+    o = I.heap.get(loc['self'])
+    explicit_keys(I, I.heap.get(o.fields['local_settings']).fields['_settings'], 1, 'local_settings', required=REQ_KEYS,
+                  note='local settings: the 5 default keys + at most 1 further key')
+    explicit_keys(I, loc['new_settings'], 2, 'new_settings',
+                  note='update_settings / received SETTINGS verified for dictionaries of at most 2 entries')
+
+
+QUEUES_KEPT = ('all(k in old(%s._settings) for k in %s._settings) and '
+               'all(len(%s._settings[k]) == old(len(%s._settings[k])) for k in old(%s._settings))' % ((LS,) * 5))
+
+contract(CONN + '.update_settings', props=['C11', 'C12', 'C02', 'C19', 'C29'],
+    args={'new_settings': 'smap:int'}, setup=update_settings_setup, requires=SOK2,
+    let={'cst': 'self.state_machine.state.value'},
+    ensures=[('all-values-valid', 'all(spec_valid_setting(k, new_settings[k]) == 0 for k in new_settings)', ['C12', 'C11']),
+             ('one-settings-frame', 'len(g_out) == len(old(g_out)) + 1 and class_name(g_out[-1]) == "SettingsFrame" and g_out[-1].stream_id == 0 and not ("ACK" in g_out[-1].flags)', ['C02', 'C11']),
+             ('frame-carries-exactly-the-new-settings', 'g_out[-1].settings is new_settings', ['C02', 'C11']),
+             ('not-applied-before-the-ack', 'all(implies(old(setting_has(%s, k)), setting_current(%s, k) == old(setting_current(%s, k))) for k in old(%s._settings))' % (LS, LS, LS, LS), ['C11']),
+             ('each-new-value-queued-once', 'all(len(%s._settings[k]) == (old(len(%s._settings[k])) if (k in old(%s._settings)) else 1) + 1 for k in new_settings)' % (LS, LS, LS), ['C11']),
+             ('other-keys-untouched', 'all(implies(not (k in new_settings), len(%s._settings[k]) == old(len(%s._settings[k]))) for k in old(%s._settings))' % (LS, LS, LS), ['C11']),
+             ('derived-state-untouched', 'self.max_inbound_frame_size == old(self.max_inbound_frame_size) and self.decoder.max_header_list_size == old(self.decoder.max_header_list_size) and self.decoder.max_allowed_table_size == old(self.decoder.max_allowed_table_size)', ['C11']),
+             ('not-closed', 'cst != C_CLOSED', ['C19']),
+             ('GI', 'GI(self)')],
+    raises=[dict(exc='InvalidSettingsValueError', props=['C12', 'C11', 'C29'],
+                 when='any(spec_valid_setting(k, new_settings[k]) != 0 for k in new_settings)'),
+            dict(exc='ProtocolError', props=['C19', 'C29'], when='not conn_accepts(cst, CI_SEND_SETTINGS)')],
+    on_raise=QUIET + [('a-raising-call-changes-no-setting', QUEUES_KEPT, ['C11'])],
+    canary='len(g_out) == len(old(g_out))')
+
+
+def recv_settings_setup(I, loc):
+    conn_setup(I, loc)
+    fr = I.heap.get(loc['frame'])
+    explicit_keys(I, fr.fields['settings'], 2, 'frame_settings',
+                  note='update_settings / received SETTINGS verified for dictionaries of at most 2 entries')
+
+
+def recv_settings_result(I, loc):
+    """Modular result shape of _receive_settings_frame: ([ACK frame], [RemoteSettingsChanged]) for a SETTINGS frame,
+    ([], [SettingsAcknowledged]) for an ACK; the events' contents are pinned by the ensures clauses."""
+    import z3
+    fl = I.heap.get(I.heap.get(loc['frame']).fields['flags']).fields['set']['ACK']
+    is_ack = I.branch(fl, 'settings-ack')
+    cls = I.class_named('h2.events.SettingsAcknowledged' if is_ack else 'h2.events.RemoteSettingsChanged')
+    ev = I.instantiate(cls, [], {}, None)
+    I.heap.get(ev).fields['changed_settings'] = I.new_sym_map('changed_settings', I.class_named('h2.settings.ChangedSetting'))
+    frames = [] if is_ack else list(I.heap.get(ack_frame_result(I, loc)).items)
+    return (I.heap.alloc(ListObj(frames)), I.heap.alloc(ListObj([ev])))
+
+
+def recv_settings_modifies(I, loc):
+    """Frame of _receive_settings_frame for modular callers: a SETTINGS frame touches the remote side only, an
+    ACK the local side only (both when the flag is symbolic)."""
+    from h2vc.core import simp_bool
+    fl = simp_bool(I.heap.get(I.heap.get(loc['frame']).fields['flags']).fields['set']['ACK'])
+    fr = I.frames[-1]
+    for t in RECV_SETTINGS_MODIFIES:
+        local = ('local_settings' in t or '_inbound_window_manager' in t or 'max_inbound_frame_size' in t or 'decoder' in t)
+        if (fl is False and local) or (fl is True and not local and 'state_machine' not in t):
+            continue
+        I.havoc(t, fr)
+
+
+RECV_SETTINGS_MODIFIES = [
+    'maparr:self.remote_settings._settings:items', 'maparr:self.remote_settings._settings:head_none', 'mapdom:self.remote_settings._settings',
+    'maparr:self.local_settings._settings:items', 'maparr:self.local_settings._settings:head_none',
+    'maparr:self.streams:outbound_flow_control_window', 'maparr:self.streams:max_outbound_frame_size',
+    'maparr:self.streams:_inbound_window_manager.current_window_size', 'maparr:self.streams:_inbound_window_manager.max_window_size',
+    'field|self.max_outbound_frame_size|int', 'field|self.max_inbound_frame_size|int',
+    'field|self.encoder.header_table_size|int', 'field|self.decoder.max_header_list_size|optint',
+    'field|self.decoder.max_allowed_table_size|int', 'field|self.state_machine.state|enum:ConnectionState']
+
+NO_PENDING_REMOTE = 'all(len(%s._settings[k]) == 1 for k in %s._settings)' % (RS, RS)
+FS = 'frame.settings'
+modular(CONN + '._receive_settings_frame')
+contract(CONN + '._receive_settings_frame', props=['C11', 'C12', 'C03', 'C04', 'C02', 'C17'],
+    args={'frame': 'frame:SettingsFrame'}, setup=recv_settings_setup, result=recv_settings_result, modifies=[recv_settings_modifies],
+    requires=SOK2 + [NO_PENDING_REMOTE],
+    let={'cst': 'self.state_machine.state.value', 'ack': '"ACK" in frame.flags'},
+    ensures=[
+        # --- a SETTINGS frame from the peer: applied at once, reported once, acknowledged once -------------------
+        ('acknowledged-exactly-once', 'implies(not ack, len(result[0]) == 1 and class_name(result[0][0]) == "SettingsFrame" and ("ACK" in result[0][0].flags) and result[0][0].stream_id == 0 and len(result[0][0].settings) == 0)', ['C11', 'C02']),
+        ('reported-exactly-once', 'implies(not ack, len(result[1]) == 1 and class_name(result[1][0]) == "RemoteSettingsChanged")', ['C11']),
+        ('applied-at-once', 'implies(not ack, all(setting_current(%s, k) == %s[k] for k in %s))' % (RS, FS, FS), ['C11']),
+        ('other-remote-settings-kept', 'implies(not ack, all(implies(not (k in %s), setting_current(%s, k) == old(setting_current(%s, k))) for k in old(%s._settings)))' % (FS, RS, RS, RS), ['C11']),
+        ('nothing-left-pending', 'implies(not ack, %s)' % NO_PENDING_REMOTE, ['C11']),
+        ('all-values-valid', 'implies(not ack, all(spec_valid_setting(k, %s[k]) == 0 for k in %s))' % (FS, FS), ['C12']),
+        ('event-lists-exactly-the-frame', 'implies(not ack, all((k in result[1][0].changed_settings) for k in %s) and all((k in %s) for k in result[1][0].changed_settings))' % (FS, FS), ['C11']),
+        ('event-old-and-new-values', 'implies(not ack, all(result[1][0].changed_settings[k].new_value == %s[k] and result[1][0].changed_settings[k].original_value == old(setting_current(%s, k) if (k in %s._settings) else None) for k in result[1][0].changed_settings))' % (FS, RS, RS), ['C11']),
+        ('outbound-frame-size-follows-peer-setting', 'self.max_outbound_frame_size == setting_current(%s, S_MAX_FRAME_SIZE)' % RS, ['C11', 'C02'],
+         'self.max_outbound_frame_size == setting_current(%s, S_MAX_FRAME_SIZE)' % RS),
+        ('encoder-table-follows-peer-setting', 'self.encoder.header_table_size == setting_current(%s, S_HEADER_TABLE_SIZE)' % RS, ['C11', 'C13'],
+         'self.encoder.header_table_size == setting_current(%s, S_HEADER_TABLE_SIZE)' % RS),
+        ('stream-windows-shifted-by-the-delta', 'implies(not ack, all(self.streams[k].outbound_flow_control_window == old(self.streams[k].outbound_flow_control_window) + (setting_current(%s, S_INITIAL_WINDOW_SIZE) - old(setting_current(%s, S_INITIAL_WINDOW_SIZE))) for k in self.streams))' % (RS, RS), ['C03', 'C11']),
+        ('connection-window-not-shifted', 'self.outbound_flow_control_window == old(self.outbound_flow_control_window)', ['C03']),
+        ('local-settings-untouched-by-peer-settings', 'implies(not ack, all(len(%s._settings[k]) == old(len(%s._settings[k])) for k in %s._settings))' % (LS, LS, LS), ['C11']),
+        # --- an ACK from the peer ------------------------------------------------------------------------------
+        ('ack-not-answered', 'implies(ack, len(result[0]) == 0)', ['C11', 'C02']),
+        ('ack-reported-once', 'implies(ack, len(result[1]) == 1 and class_name(result[1][0]) == "SettingsAcknowledged")', ['C11']),
+        ('ack-applies-pending-local-values', 'implies(ack, all(len(%s._settings[k]) == (old(len(%s._settings[k])) - 1 if old(len(%s._settings[k])) > 1 else 1) for k in %s._settings))' % (LS, LS, LS, LS), ['C11']),
+        ('ack-event-lists-the-applied-changes', 'implies(ack, all((k in result[1][0].changed_settings) == (old(len(%s._settings[k])) > 1) for k in %s._settings))' % (LS, LS), ['C11']),
+        ('ack-leaves-remote-settings', 'implies(ack, all(len(%s._settings[k]) == 1 and setting_current(%s, k) == old(setting_current(%s, k)) for k in %s._settings))' % (RS, RS, RS, RS), ['C11']),
+        ('inbound-frame-size-follows-acknowledged-setting', 'self.max_inbound_frame_size == setting_current(%s, S_MAX_FRAME_SIZE)' % LS, ['C11', 'C21'],
+         'self.max_inbound_frame_size == setting_current(%s, S_MAX_FRAME_SIZE)' % LS),
+        ('stream-inbound-windows-shifted', 'implies(ack, all(self.streams[k]._inbound_window_manager.current_window_size == old(self.streams[k]._inbound_window_manager.current_window_size) + (setting_current(%s, S_INITIAL_WINDOW_SIZE) - old(setting_current(%s, S_INITIAL_WINDOW_SIZE))) for k in self.streams))' % (LS, LS), ['C04', 'C11']),
+        ('no-stream-opened-or-closed', 'all(k in old(self.streams) for k in self.streams) and all(k in self.streams for k in old(self.streams))', ['C27']),
+        ('connection-state-kept', 'self.state_machine.state.value == cst', ['C19']),
+        ('closed-connection-processes-nothing', 'cst != C_CLOSED', ['C19']),
+        ('remote-settings-stay-well-formed', 'SETTINGS_OK(%s)' % RS, ['C11', 'C12']),
+        ('GI', 'GI(self)')],
+    raises=[dict(exc='InvalidSettingsValueError', props=['C12', 'C18'],
+                 when='not ack and any(spec_valid_setting(k, %s[k]) != 0 for k in %s)' % (FS, FS),
+                 ensures=[('rfc-code', 'exc.error_code == PROTOCOL_ERROR or exc.error_code == FLOW_CONTROL_ERROR', ['C12', 'C18'])]),
+            dict(exc='FlowControlError', props=['C12', 'C03', 'C04', 'C18'],
+                 ensures=[('code', 'exc.error_code == FLOW_CONTROL_ERROR', ['C18', 'C12'])]),
+            dict(exc='ProtocolError', props=['C17'], when='not conn_accepts(cst, CI_RECV_SETTINGS)',
+                 ensures=[('code', 'exc.error_code == PROTOCOL_ERROR', ['C18'])])],
+    on_raise=[('nothing-emitted', 'len(g_out) == len(old(g_out))')],
+    canary='len(result[1]) == 0')
+
+
+# ---------------------------------------------------------------------------
+def ack_settings_setup(I, loc):
+    conn_setup(I, loc)
+    o = I.heap.get(loc['self'])
+    explicit_keys(I, o.fields['streams'], 2, 'streams', note='loops over self.streams verified for at most 2 streams (settings handlers)')
+
+
+PEND = lambda s, key: '(len(%s._settings[%s]) > 1)' % (s, key)
+NEWV = lambda s, key: '%s._settings[%s][1]' % (s, key)
+CURV = lambda s, key: '%s._settings[%s][0]' % (s, key)
+
+def ack_frame_result(I, loc):
+    """Modular result shape: a one-element list holding a fresh SETTINGS frame (its flags and payload are pinned by
+    the ensures clause 'one-ack-frame')."""
+    from h2vc.deps_model import EXTERN_CALLS, flags_add
+    f = EXTERN_CALLS['hyperframe.frame.SettingsFrame'](I, [0], {}, None)
+    fo = I.heap.get(f)
+    flags_add(I, fo.fields['flags'], I.heap.get(fo.fields['flags']), ['ACK'], {}, None)
+    return I.heap.alloc(ListObj([f]))
+
+
+modular(CONN + '._acknowledge_settings')
+contract(CONN + '._acknowledge_settings', props=['C11', 'C03', 'C02', 'C13', 'C12'],
+    args={}, setup=ack_settings_setup, requires=SOK2, result=ack_frame_result,
+    modifies=[lambda I, loc: ack_summary(I, {'self': I.getattr(loc['self'], 'remote_settings')}),   # closed form of 'pending-values-applied'
+              'maparr:self.streams:outbound_flow_control_window', 'maparr:self.streams:max_outbound_frame_size',
+              'field|self.max_outbound_frame_size|int', 'field|self.encoder.header_table_size|int',
+              'field|self.state_machine.state|enum:ConnectionState'],
+    let={'cst': 'self.state_machine.state.value',
+         'iw_pending': PEND(RS, 'S_INITIAL_WINDOW_SIZE'), 'delta': '(%s - %s)' % (NEWV(RS, 'S_INITIAL_WINDOW_SIZE'), CURV(RS, 'S_INITIAL_WINDOW_SIZE')),
+         'fs_pending': PEND(RS, 'S_MAX_FRAME_SIZE'), 'ht_pending': PEND(RS, 'S_HEADER_TABLE_SIZE')},
+    ensures=[('one-ack-frame', 'len(result) == 1 and class_name(result[0]) == "SettingsFrame" and ("ACK" in result[0].flags) and result[0].stream_id == 0 and len(result[0].settings) == 0', ['C11', 'C02']),
+             ('pending-values-applied', 'all(len(%s._settings[k]) == (old(len(%s._settings[k])) - 1 if old(len(%s._settings[k])) > 1 else old(len(%s._settings[k]))) and (%s._settings[k][0] == old(%s._settings[k][1 if len(%s._settings[k]) > 1 else 0])) for k in %s._settings)' % ((RS,) * 8), ['C11']),
+             ('stream-windows-shifted-by-the-delta', 'all(self.streams[k].outbound_flow_control_window == old(self.streams[k].outbound_flow_control_window) + (delta if iw_pending else 0) for k in self.streams)', ['C03', 'C11']),
+             ('stream-windows-in-range', 'all(self.streams[k].outbound_flow_control_window <= MAXWIN for k in self.streams)', ['C03', 'C12']),
+             ('connection-window-not-shifted', 'self.outbound_flow_control_window == old(self.outbound_flow_control_window)', ['C03']),
+             ('outbound-frame-size-follows', 'self.max_outbound_frame_size == (old(%s) if fs_pending else old(self.max_outbound_frame_size))' % NEWV(RS, 'S_MAX_FRAME_SIZE'), ['C11', 'C02']),
+             ('every-stream-gets-the-frame-size', 'all(self.streams[k].max_outbound_frame_size == self.max_outbound_frame_size for k in self.streams)', ['C02', 'C11']),
+             ('encoder-table-size-follows', 'self.encoder.header_table_size == (old(%s) if ht_pending else old(self.encoder.header_table_size))' % NEWV(RS, 'S_HEADER_TABLE_SIZE'), ['C11', 'C13']),
+             ('connection-state-kept', 'self.state_machine.state.value == cst', ['C19']),
+             ('local-side-untouched', 'self.max_inbound_frame_size == old(self.max_inbound_frame_size) and all(len(%s._settings[k]) == old(len(%s._settings[k])) for k in %s._settings)' % (LS, LS, LS), ['C11']),
+             ('no-stream-opened-or-closed', 'all(k in old(self.streams) for k in self.streams) and all(k in self.streams for k in old(self.streams))'),
+             ],
+    raises=[dict(exc='FlowControlError', props=['C12', 'C03', 'C18'],
+                 when='iw_pending and any(self.streams[k].outbound_flow_control_window + delta > MAXWIN for k in self.streams)',
+                 ensures=[('code', 'exc.error_code == FLOW_CONTROL_ERROR', ['C18', 'C12'])]),
+            dict(exc='ProtocolError', when='not conn_accepts(cst, CI_SEND_SETTINGS)')],
+    canary='len(result) == 0')
+
+
+modular(CONN + '._local_settings_acked')
+contract(CONN + '._local_settings_acked', props=['C11', 'C04', 'C27'],
+    args={}, setup=ack_settings_setup, requires=SOK2, result='map:h2.settings.ChangedSetting',
+    modifies=[lambda I, loc: ack_summary(I, {'self': I.getattr(loc['self'], 'local_settings')}),   # closed form of 'pending-values-applied'
+              'maparr:self.streams:_inbound_window_manager.current_window_size', 'maparr:self.streams:_inbound_window_manager.max_window_size',
+              'field|self.max_inbound_frame_size|int', 'field|self.decoder.max_header_list_size|optint',
+              'field|self.decoder.max_allowed_table_size|int'],
+    let={'iw_pending': PEND(LS, 'S_INITIAL_WINDOW_SIZE'), 'delta': '(%s - %s)' % (NEWV(LS, 'S_INITIAL_WINDOW_SIZE'), CURV(LS, 'S_INITIAL_WINDOW_SIZE')),
+         'fs_pending': PEND(LS, 'S_MAX_FRAME_SIZE'), 'ht_pending': PEND(LS, 'S_HEADER_TABLE_SIZE'),
+         'hl_pending': '((S_MAX_HEADER_LIST_SIZE in %s._settings) and %s)' % (LS, PEND(LS, 'S_MAX_HEADER_LIST_SIZE'))},
+    ensures=[('pending-values-applied', 'all(len(%s._settings[k]) == (old(len(%s._settings[k])) - 1 if old(len(%s._settings[k])) > 1 else old(len(%s._settings[k]))) and (%s._settings[k][0] == old(%s._settings[k][1 if len(%s._settings[k]) > 1 else 0])) for k in %s._settings)' % ((LS,) * 8), ['C11']),
+             ('reports-exactly-the-applied-keys', 'all((k in result) == (old(len(%s._settings[k])) > 1) for k in %s._settings)' % (LS, LS), ['C11']),
+             ('reports-old-and-new-values', 'all(implies(old(len(%s._settings[k])) > 1, result[k].new_value == old(%s._settings[k][1]) and result[k].original_value == old(%s._settings[k][0])) for k in %s._settings)' % ((LS,) * 4), ['C11']),
+             ('stream-inbound-windows-shifted', 'all(self.streams[k]._inbound_window_manager.current_window_size == old(self.streams[k]._inbound_window_manager.current_window_size) + (delta if iw_pending else 0) for k in self.streams)', ['C04', 'C11']),
+             ('stream-inbound-maxima-shifted', 'all(self.streams[k]._inbound_window_manager.max_window_size == old(self.streams[k]._inbound_window_manager.max_window_size) + (delta if iw_pending else 0) for k in self.streams)', ['C04', 'C05', 'C11']),
+             ('connection-inbound-window-not-shifted', 'self._inbound_flow_control_window_manager.current_window_size == old(self._inbound_flow_control_window_manager.current_window_size)', ['C04']),
+             ('inbound-frame-size-follows', 'self.max_inbound_frame_size == (old(%s) if fs_pending else old(self.max_inbound_frame_size))' % NEWV(LS, 'S_MAX_FRAME_SIZE'), ['C11', 'C21']),
+             ('header-list-limit-follows-acknowledged-value', 'implies(hl_pending, self.decoder.max_header_list_size == old(%s))' % NEWV(LS, 'S_MAX_HEADER_LIST_SIZE'), ['C11', 'C27']),
+             ('header-list-limit-kept-otherwise', 'implies(not hl_pending, self.decoder.max_header_list_size == old(self.decoder.max_header_list_size))', ['C11', 'C27']),
+             ('decoder-table-limit-follows', 'self.decoder.max_allowed_table_size == (old(%s) if ht_pending else old(self.decoder.max_allowed_table_size))' % NEWV(LS, 'S_HEADER_TABLE_SIZE'), ['C11']),
+             ('remote-side-untouched', 'self.max_outbound_frame_size == old(self.max_outbound_frame_size) and self.outbound_flow_control_window == old(self.outbound_flow_control_window)', ['C11']),
+             ('no-stream-opened-or-closed', 'all(k in old(self.streams) for k in self.streams) and all(k in self.streams for k in old(self.streams))'),
+             ],
+    raises=[dict(exc='FlowControlError', props=['C04', 'C18'],
+                 when='iw_pending and any(self.streams[k]._inbound_window_manager.current_window_size + delta > MAXWIN for k in self.streams)',
+                 ensures=[('code', 'exc.error_code == FLOW_CONTROL_ERROR', ['C18'])])],
+    canary='False')
+
+
+# ---------------------------------------------------------------------------
+# initiate_connection / initiate_upgrade_connection (C02, C11, C25, C09, C19, C29)
+def init_conn_setup(I, loc):
+    conn_setup(I, loc)
+    o = I.heap.get(loc['self'])
+    explicit_keys(I, I.heap.get(o.fields['local_settings']).fields['_settings'], 1, 'local_settings', required=REQ_KEYS,
+                  note='local settings: the 5 default keys + at most 1 further key')
+
+
+INIT_FRAME = ('class_name(g_out[-1]) == "SettingsFrame" and g_out[-1].stream_id == 0 and not ("ACK" in g_out[-1].flags) '
+              'and all(g_out[-1].settings[k] == setting_current(%s, k) for k in %s._settings) '
+              'and len(g_out[-1].settings) == len(%s._settings)' % (LS, LS, LS))
+WIRE_RANGE_LOCAL = ('all(implies(setting_has(%s, k), 0 <= setting_current(%s, k) and setting_current(%s, k) <= 4294967295) for k in %s._settings)'
+                    % (LS, LS, LS, LS))
+contract(CONN + '.initiate_connection', props=['C02', 'C11', 'C19', 'C29'],
+    args={}, setup=init_conn_setup,
+    # hypothesis (unchecked at call sites, see known finding F05d): every current local value fits the 32-bit wire field
+    requires=SOK2 + [WIRE_RANGE_LOCAL],
+    let={'cst': 'self.state_machine.state.value'},
+    ensures=[('one-settings-frame', 'len(g_out) == len(old(g_out)) + 1', ['C02', 'C11']),
+             ('is-settings-frame', 'class_name(g_out[-1]) == "SettingsFrame" and g_out[-1].stream_id == 0 and not ("ACK" in g_out[-1].flags)', ['C02', 'C11']),
+             ('carries-the-local-settings', 'all(g_out[-1].settings[k] == setting_current(%s, k) for k in g_out[-1].settings) and len(g_out[-1].settings) == len(%s._settings)' % (LS, LS), ['C02', 'C11']),
+             ('preface-iff-client', 'len(self._data_to_send) == len(old(self._data_to_send)) + (24 if self.config.client_side else 0) + 9 + 6 * len(%s._settings)' % LS, ['C02']),
+             ('settings-not-requeued', 'all(len(%s._settings[k]) == old(len(%s._settings[k])) for k in %s._settings)' % (LS, LS, LS), ['C11']),
+             ('not-closed', 'cst != C_CLOSED', ['C19']),
+             ('GI', 'GI(self)')],
+    raises=[dict(exc='ProtocolError', props=['C19', 'C29'], when='not conn_accepts(cst, CI_SEND_SETTINGS)')],
+    on_raise=QUIET, canary='len(g_out) == len(old(g_out))')
+
+
+S1 = 'self.streams[1].state_machine'
+
+
+def upgrade_setup(I, loc):
+    init_conn_setup(I, loc)
+    explicit_keys(I, loc['g_client_settings'], 2, 'client_settings',
+                  note='update_settings / received SETTINGS verified for dictionaries of at most 2 entries')
+
+
+contract(CONN + '.initiate_upgrade_connection', props=['C25', 'C09', 'C02', 'C19', 'C29'],
+    args={'settings_header': 'optbytes'}, setup=upgrade_setup, ghost={'g_client_settings': 'smap:int'},
+    # a fresh connection (the property speaks about the h2c upgrade of a new connection); on a server the header is
+    # the one a client derived from its settings g_client_settings (identifiers and values in wire range)
+    requires=SOK2 + [WIRE_RANGE_LOCAL, NO_PENDING_REMOTE, 'all(k < 0 for k in self.streams)',
+                     'self.highest_inbound_stream_id == 0 and self.highest_outbound_stream_id == 0',
+                     'self.state_machine.state.value == C_IDLE',
+                     'all(0 <= k and k <= 65535 and 0 <= g_client_settings[k] and g_client_settings[k] <= 4294967295 for k in g_client_settings)',
+                     'implies(not self.config.client_side and settings_header is not None, settings_header == settings_header_of(g_client_settings))'],
+    let={'cst': 'self.state_machine.state.value', 'client': 'self.config.client_side'},
+    ensures=[('server-view-equals-client-settings', 'implies(not client and settings_header is not None and len(settings_header) > 0, all(setting_current(%s, k) == g_client_settings[k] for k in g_client_settings))' % RS, ['C25', 'C11']),
+             ('client-header-encodes-the-announced-settings', 'implies(client, result == settings_header_of(g_out[-1].settings))', ['C25']),
+             ('stream-1-exists', '1 in self.streams', ['C25']),
+             ('client-stream-1-half-closed-local', 'implies(client, %s.state == StreamState.HALF_CLOSED_LOCAL and %s.client is True and %s.headers_sent)' % (S1, S1, S1), ['C25', 'C06']),
+             ('server-stream-1-half-closed-remote', 'implies(not client, %s.state == StreamState.HALF_CLOSED_REMOTE and %s.client is False and %s.headers_received)' % (S1, S1, S1), ['C25', 'C06']),
+             ('connection-open-in-own-role', 'self.state_machine.state == (ConnectionState.CLIENT_OPEN if client else ConnectionState.SERVER_OPEN)', ['C25']),
+             ('next-stream-ids', '(self.highest_outbound_stream_id == 1 and self.highest_inbound_stream_id == 0) if client else (self.highest_inbound_stream_id == 1 and self.highest_outbound_stream_id == 0)', ['C25', 'C09']),
+             ('client-returns-its-settings', 'implies(client, result is not None)', ['C25']),
+             ('server-returns-nothing', 'implies(not client, result is None)', ['C25']),
+             ('preface-and-settings-sent', 'len(g_out) == len(old(g_out)) + 1 and class_name(g_out[-1]) == "SettingsFrame" and not ("ACK" in g_out[-1].flags)', ['C25', 'C02']),
+             ('header-settings-not-acknowledged-on-the-wire', 'len(self._data_to_send) == len(old(self._data_to_send)) + (24 if client else 0) + 9 + 6 * len(%s._settings)' % LS, ['C25', 'C02']),
+             ('no-remote-setting-left-pending', NO_PENDING_REMOTE, ['C25', 'C11']),
+             ('only-stream-1', 'all(k == 1 for k in self.streams)', ['C25']),
+             ('stream-1-uses-the-handed-over-settings', 'self.streams[1].outbound_flow_control_window == setting_current(%s, S_INITIAL_WINDOW_SIZE) and self.streams[1]._inbound_window_manager.current_window_size == setting_current(%s, S_INITIAL_WINDOW_SIZE)' % (RS, LS), ['C25', 'C03']),
+             ('derived-state-follows-the-handed-over-settings', 'implies(old(self.max_outbound_frame_size == setting_current(%s, S_MAX_FRAME_SIZE) and self.encoder.header_table_size == setting_current(%s, S_HEADER_TABLE_SIZE)), self.max_outbound_frame_size == setting_current(%s, S_MAX_FRAME_SIZE) and self.encoder.header_table_size == setting_current(%s, S_HEADER_TABLE_SIZE))' % (RS, RS, RS, RS), ['C25', 'C11']),
+             ('GI', 'GI(self)')],
+    raises=[dict(exc='ProtocolError', props=['C29', 'C25']), dict(exc='ValueError', props=['C29'], when='not client and settings_header is not None')],
+    on_raise=[],
+    canary='1 in self.streams and self.streams[1].state_machine.state == StreamState.OPEN')
